@@ -296,6 +296,39 @@ def run(ctx):
     um = repo.module(U)
     codec_dispatch(ctx, repo)
     array_shape_rule(ctx, repo)
+    # the namespace name a configuration stores (xp.__name__) resolves back to the same array library
+    from . import strdispatch
+    rx = repo.func(f"{U}:resolve_xp")
+    families = {"array_api_compat.numpy": "numpy", "jax.numpy": "jax", "array_api_compat.torch": "torch"}
+    cdw = repo.cls("aspire.aspire:Aspire").methods.get("config_dict")
+    writes_name = cdw is not None and any(isinstance(d, ast.Dict) and any(isinstance(k, ast.Constant) and k.value == "xp" and any(isinstance(x, ast.Attribute) and x.attr == "__name__" for x in ast.walk(v))
+                                                                              for k, v in zip(d.keys, d.values)) for d in ast.walk(cdw.node))
+    reads_name = any(isinstance(n, ast.Call) and isinstance(n.func, ast.Name) and n.func.id == "resolve_xp" for f_ in repo.cls("aspire.aspire:Aspire").methods.values() for n in ast.walk(f_.node))
+    if not (writes_name and reads_name):
+        ctx.unknown("C13.xpname", rx.ident, loc_of(rx), "the configuration no longer stores xp.__name__ / is no longer read through resolve_xp: the names to fold on are not known", disc="route")
+        families = {}
+    for stored, fam in families.items():
+        try:
+            got = strdispatch.fold(rx.node, stored)
+        except strdispatch.Undecided as ex:
+            ctx.unknown("C13.xpname", rx.ident, loc_of(rx), f"resolve_xp({stored!r}): {ex} is outside the folded subset", disc=fam)
+            continue
+        name = got.name if isinstance(got, strdispatch.Module) else None
+        okx = name is not None and fam in name.split(".") and not (fam == "numpy" and "jax" in name.split("."))
+        ctx.decide(okx, "C13.xpname", rx.ident, loc_of(rx), f"resolve_xp({stored!r}) is module {name}",
+                   f"a configuration written under {fam} stores xp = {stored!r}, and resolve_xp maps that name to {name or got!r}: the instance rebuilt from the file "
+                   f"works in another array namespace than the one that wrote it", disc=fam)
+    ctx.decide(strdispatch.fold(rx.node, None) is None, "C13.xpname", rx.ident, loc_of(rx), "resolve_xp(None) is None", "a configuration without a namespace does not come back as None", disc="none")
+
+    # every HDF5 writer of a sample set goes through to_numpy() first (found, not assumed): what that conversion drops is not saved
+    enc_fns = [f for f in repo.all_functions() if f.ident.startswith(f"{SAMPLES_MOD}:") and f.name in ("_encode_for_hdf5", "save")
+               and any(isinstance(n, ast.Call) and isinstance(n.func, ast.Attribute) and n.func.attr == "to_numpy" for n in walk_no_nested(f.node))]
+    ctx.count("sample_writers_through_to_numpy", len(enc_fns))
+    if enc_fns:
+        from ..report import reuse as _reuse
+        from . import c15 as _c15
+        _reuse(ctx, _c15.run, ("C15.carry", "C15.xp", "C15.dtype"), "C13np", f"conversion rule shared with C15: {enc_fns[0].qualname if hasattr(enc_fns[0], 'qualname') else enc_fns[0].ident.split(':')[1]} "
+               "writes self.to_numpy().to_dict(), so a field the NumPy conversion drops or alters is not in the file", only=lambda f: f.construct.endswith(".to_numpy"))
 
     # (1) sentinels
     enc, dec = repo.func(f"{U}:encode_for_hdf5"), repo.func(f"{U}:decode_from_hdf5")
@@ -612,6 +645,10 @@ _T = "src/aspire/transforms.py"
 _TF = "src/aspire/flows/torch/flows.py"
 _A = "src/aspire/aspire.py"
 MUTANTS = [
+    M("namespace names matched by substring, numpy first", _U, "if name in {\"numpy\", \"numpy.ndarray\"}:", "if \"numpy\" in name:", "C13.xpname"),
+    M("compat prefix no longer stripped", _U, "if name.startswith(\"array_api_compat.\"):\n        name = name.removeprefix(\"array_api_compat.\")\n", "", "C13.xpname"),
+    M("torch resolved to the jax namespace", _U, "if name in {\"torch\"}:\n            import array_api_compat.torch as torch_xp\n\n            return torch_xp", "if name in {\"torch\"}:\n            import jax.numpy as torch_xp\n\n            return torch_xp", "C13.xpname"),
+    M("a population at beta = 0 is converted for saving without its temperature", _S, "log_q=to_numpy(self.log_q) if self.log_q is not None else None,\n            beta=self.beta,", "log_q=to_numpy(self.log_q) if self.log_q is not None else None,\n            beta=float(self.beta) if self.beta else None,", "C13np"),
     M("torch save pops the data transform out of the live constructor arguments (a second save writes none)", _TF, "config = self.config_dict().copy()\n        data_transform = config.pop(\"data_transform\", None)\n        dtype_value = config.get(\"dtype\")", "config, data_transform = self._split_config()\n        dtype_value = config.get(\"dtype\")", "C13.nomut", within="BaseTorchFlow",
       more=[("def save(self, h5_file, path=\"flow\"):", "def _split_config(self):\n        config = self.config_dict()\n        data_transform = config.pop(\"data_transform\", None)\n        return dict(config), data_transform\n\n    def save(self, h5_file, path=\"flow\"):")]),
     M("torch save pops the data transform out of the live constructor arguments, inline", _TF, "config = self.config_dict().copy()\n        data_transform = config.pop(\"data_transform\", None)\n        dtype_value", "config = self.config_dict()\n        data_transform = config.pop(\"data_transform\", None)\n        config = dict(config)\n        dtype_value", "C13.nomut"),
@@ -658,6 +695,8 @@ MUTANTS += [
     M("from_dict stacks columns in mapping order", _S, "x = np.stack([samples[p] for p in parameters], axis=-1)", "x = np.stack(list(samples.values()), axis=-1)", "C13.dictorder"),
 ]
 NEUTRALS = [
+    M("namespace names matched by substring, jax first", _U, "if name in {\"numpy\", \"numpy.ndarray\"}:\n            import array_api_compat.numpy as np_xp\n\n            return np_xp\n        if name in {\"jax\", \"jax.numpy\"}:\n            import jax.numpy as jnp\n\n            return jnp",
+      "if \"jax\" in name:\n            import jax.numpy as jnp\n\n            return jnp\n        if \"numpy\" in name:\n            import array_api_compat.numpy as np_xp\n\n            return np_xp"),
     M("torch save splits the configuration in a helper that copies first", _TF, "config = self.config_dict().copy()\n        data_transform = config.pop(\"data_transform\", None)\n        dtype_value = config.get(\"dtype\")", "config, data_transform = self._split_config()\n        dtype_value = config.get(\"dtype\")", within="BaseTorchFlow",
       more=[("def save(self, h5_file, path=\"flow\"):", "def _split_config(self):\n        config = dict(self.config_dict())\n        data_transform = config.pop(\"data_transform\", None)\n        return config, data_transform\n\n    def save(self, h5_file, path=\"flow\"):")]),
     M("decoder: 0-d test by ndim", _U, "if value.shape == ():\n            return value.item()", "if value.ndim == 0:\n            return value.item()"),
